@@ -978,8 +978,19 @@ def batch_cover(ctx: Ctx) -> None:
         ctx.ob(d, ext[0], True, "input batches come from itertools.batched", sel="batch:source")
         ctx.ob(d, ext[0], True, "itertools.batched yields the last, shorter batch", sel="batch:cover")
         return
+    h = None
+    if not calls:
+        # the helper under another name: whatever defines the iterator the refill draws from
+        fl_, cfg_ = flow_of(repo, d), cfg_of(d)
+        for nx_ in [c for c in d.own_nodes() if isinstance(c, ast.Call) and isinstance(c.func, ast.Name) and c.func.id == "next" and c.args and isinstance(c.args[0], ast.Name) and cfg_.has(c)]:
+            for s_ in fl_.rdefs(nx_.args[0].id, cfg_.node_of(nx_)):
+                if isinstance(s_.value, ast.Call):
+                    for t in repo.resolve_call(s_.value, d, d.module):
+                        if t.kind == "def" and t.ref.is_func and len(t.ref.params) >= 2:
+                            calls, h = [s_.value], t.ref
     ctx.need(calls, "the parallel map does not draw its batches from a batching helper")
-    h = next(t.ref for t in repo.resolve_call(calls[0], d, d.module) if t.kind == "def" and t.ref.name == "batched")
+    if h is None:
+        h = next(t.ref for t in repo.resolve_call(calls[0], d, d.module) if t.kind == "def" and t.ref.name == "batched")
     # the map passes its whole input and the user's batch size
     c = calls[0]
     ok = len(c.args) >= 2 and isinstance(c.args[0], ast.Name) and c.args[0].id in d.params
